@@ -38,7 +38,7 @@ func (g *GetLabelsPlanner) Process(ctx *shared.PlannerContext) (sql.ISelect, err
 			if err != nil {
 				return "", err
 			}
-			return fmt.Sprintf("arrayFilter(x -> %s, p.tags)", strInTags), nil
+			return fmt.Sprintf("arraySort(arrayFilter(x -> %s, p.tags))", strInTags), nil
 		}), "tags")
 	}
 
